@@ -40,6 +40,11 @@ def insertSorted (k : Bytes) : List Bytes → List Bytes
 
 def sortKeys (ks : List Bytes) : List Bytes := ks.foldr insertSorted []
 
+/-- `Args.ToIPLD` on the arguments as supplied (keys in supply order): ONE map, keys sorted. What the policies of a chain
+are matched on (and what is sealed) is this node. -/
+def argsNode (kvs : List (Bytes × Node)) : Node :=
+  .map ((sortKeys (kvs.map (·.1))).filterMap (fun k => (Node.lookup k kvs).map (fun v => (k, v))))
+
 inductive Out where
   | node (n : Node)
   | keys (ks : List Bytes)
